@@ -162,13 +162,13 @@ harnesses! {
     }
     fn c06_q_extend_filtered [10] {
         // extend from an iterator whose size hint (upper bound 3) exceeds what it yields (2)
-        setup!(Dna, 64, 3, 3, 6, w, src, s);
+        setup!(Dna, 64, 3, 1, 4, w, src, s);
         let (x, y) = (Dna::try_from_bits(any_u8() & 3).unwrap(), Dna::try_from_bits(any_u8() & 3).unwrap());
         s.extend([x, Dna::G, y].into_iter().enumerate().filter(|(i, _)| *i != 1).map(|(_, d)| d));
-        assert!(s.len() == 5, "C06.extend.len_is_number_of_items_yielded");
+        assert!(s.len() == 3, "C06.extend.len_is_number_of_items_yielded");
         let i = any_usize();
-        assume(i < 5);
-        let want = if i < 3 { old!(Dna, oracle::DNA, w, 3, i) } else if i == 3 { x.to_bits() } else { y.to_bits() };
+        assume(i < 3);
+        let want = if i < 1 { old!(Dna, oracle::DNA, w, 3, i) } else if i == 1 { x.to_bits() } else { y.to_bits() };
         assert!(s.nth(i).to_bits() == want, "C06.extend.list_model");
         reach!("end");
         core::mem::forget(s);
